@@ -151,6 +151,31 @@ func c11(run *core.Run, replay string) {
 			cases = append(cases, &rangeCase{recs[ri], 0, k, jobsL[(k+1)%6], k%2 == 1})
 		}
 	}
+	// streams longer than the saturating block-count hint (63): boundary-focused ranges
+	for i, nb := range []int{64, 70, 130} {
+		for _, hinted := range []bool{false, true} {
+			cf := cfg([]string{"NONE", "LZ", "RLT"}[i%3], []string{"NONE", "HUFFMAN", "ANS0"}[i%3], 1024, 3, 32)
+			if hinted {
+				cf.Hint = -1
+			}
+			rc := recipe{fmt.Sprintf("%dblk-long-hint=%v", nb, hinted), cf, "text", nb*1024 - 300, S + int64(100+i)}
+			marks := []int{1, 2, 3, 62, 63, 64, 65, 66, 70, nb - 1, nb, nb + 1, nb + 3}
+			for _, from := range marks {
+				for _, to := range marks {
+					if to < from || from < 1 {
+						continue
+					}
+					for ji, j := range []uint{1, 2, 4, 64} {
+						if !run.Thorough() && (from+to+ji)%2 == 1 {
+							continue
+						}
+						cases = append(cases, &rangeCase{rc, from, to, j, (from+to)%3 == 0})
+					}
+				}
+				cases = append(cases, &rangeCase{rc, from, 0, uint(1 + from%4), false}, &rangeCase{rc, 0, from, uint(1 + from%3), false})
+			}
+		}
+	}
 	core.ParallelDo(len(cases), 0, func(i int) {
 		c := cases[i]
 		if core.Hangs() >= 3 {
